@@ -536,7 +536,7 @@ class Engine:
             self.cover(x, lab, con.tags, ln)
             res = x.env.get('__ret__', NONE)
             x.env['result'] = res
-            akeys = [k2 for k2 in list(con.asserts) + list(con.ghost_return_at) if k2.startswith('return@') and self.return_matches(fr, ln, k2)]
+            akeys = [k2 for k2 in dict.fromkeys(list(con.asserts) + list(con.ghost_return_at)) if k2.startswith('return@') and self.return_matches(fr, ln, k2)]
             for c in con.asserts.get('return', []) + con.asserts.get(lab, []) + [c2 for k2 in akeys for c2 in con.asserts.get(k2, [])]:
                 v = self.eval_clause(c, x, fr.old)
                 self.oblige(x, v, 'assert', c.label, c.tags, ln, site=lab)
